@@ -52,6 +52,16 @@ CHECKS = {
              "units (Fraction magnitudes) are recomputed by Trace_Reg and log units checked against their formula in float.",
         design_ref="DESIGN.md section 3, C06",
         note="Logarithms are floating point: tolerance 1e-9; // and % with offset units are outside the documented table and not claimed."),
+    "C07": dict(
+        technique="TLA+ spec (Expr) with the library's precedence-climbing parser transcribed and Python's grammar as a recursive-descent parser, compared by TLC on every token sequence; TLC states rendered as strings and parsed by the real library; audited fuzzing for the no-execution clause",
+        text="TLC checks for every token sequence up to length 5 (quick, 1.8e5) or 6 (thorough, 1.9e6) over {2, 3, m, + - * / // ** ( )} that the "
+             "transcription of pint_eval._build_eval_tree and a parser for Python's grammar (juxtaposition at * level, ** right-associative and tighter "
+             "than unary minus) agree on acceptance and on the exact value, and that unbalanced or dangling input yields no value; every state is "
+             "rendered in two or three spellings and parsed by parse_expression (Fraction registry, exact; float / Decimal / ureg() / Quantity(str) on a "
+             "share); word forms, unicode exponents and literal types are checked against their operator form; 1500 (thorough 6000) fuzz inputs are "
+             "parsed under an audit hook that reports any exec / compile / import / open / os / subprocess / socket event.",
+        design_ref="DESIGN.md section 3, C07",
+        note="The token model has one unit and small integers (values beyond 1e5 are not compared); +/- notation belongs to C19."),
     "C08": dict(
         technique="TLA+ spec (Names; DefTable.Resolve) model-checked with TLC over colliding-spelling registries; TLC states replayed on real registries in two lookup orders and case-insensitively; bundled-registry strings validated by the TLC trace spec Trace_Names",
         text="The candidate loop of parse_unit_name / get_name (suffix-major, prefix insertion order, de-duplication, exact hit first, offset refusal) "
